@@ -272,13 +272,33 @@ def r3(F, R):
         rows = D.Deep(F, m, max_paths=20).run()
         if len(rows) == 1:
             ops = [e for e in rows[0].effects if e[0] == "call" and re.search(r"::(cmp|eq|ne|hash|partial_cmp)$", e[1])]
-            if len(ops) == 1:
-                n_args = 1 if meth == "hash" else 2
-                def is_pat(a, who):
-                    while isinstance(a, tuple) and a and a[0] in ("ref", "deref", "refto"):
-                        a = a[1]
-                    return isinstance(a, tuple) and a[0] == "call" and re.search(r"Regex::as_str$", a[1]) is not None and D.mentions(a, lambda y: y == ("arg", who))
-                okm = all(is_pat(ops[0][2][i], i + 1) for i in range(n_args)) and (meth == "hash" or D.mentions(rows[0].ret, lambda x: x[0] == "call" and x[3] == ops[0][4]))
+            n_args = 1 if meth == "hash" else 2
+            def is_pat(a, who):
+                while isinstance(a, tuple) and a and a[0] in ("ref", "deref", "refto"):
+                    a = a[1]
+                return isinstance(a, tuple) and a[0] == "call" and re.search(r"Regex::as_str$", a[1]) is not None and D.mentions(a, lambda y: y == ("arg", who))
+            pat_ops = [e for e in ops if len(e[2]) >= n_args and all(is_pat(e[2][i], i + 1) for i in range(n_args))]
+            if len(pat_ops) == 1:
+                po = pat_ops[0]
+                is_po = lambda x: isinstance(x, tuple) and len(x) == 4 and x[0] == "call" and x[3] == po[4]
+                ret = rows[0].ret
+                if meth == "hash":
+                    okm = len(ops) == 1
+                elif is_po(ret):
+                    okm = len(ops) == 1
+                else:
+                    # `self.cmp(other) == Ordering::Equal` (eq through the total order on the same pattern strings)
+                    strip = lambda a: strip(a[1]) if isinstance(a, tuple) and a and a[0] in ("ref", "deref", "refto") else a
+                    okm = meth == "eq" and len(ops) == 2 and isinstance(ret, tuple) and ret[0] == "call" and re.search(r"::eq$", ret[1]) is not None and len(ret[2]) == 2 and \
+                        any(is_po(strip(x)) for x in ret[2]) and any(D.is_variant(strip(x), "std::cmp::Ordering", "Equal") or (isinstance(strip(x), tuple) and strip(x)[0] == "const") for x in ret[2])
+        if not okm and meth == "eq" and len(rows) == 2:
+            # `matches!(self.cmp(other), Ordering::Equal)`: equality through the type's own total order (checked above to compare the patterns)
+            def via_cmp(p):
+                cs = [(a, o) for a, o in p.conds if a[0] == "discr" and a[1][0] == "call" and re.search(r"step::HashableRegex as std::cmp::Ord>::cmp$", a[1][1])
+                      and D.mentions(a[1][2][0], lambda y: y == ("arg", 1)) and D.mentions(a[1][2][1], lambda y: y == ("arg", 2))]
+                return cs[0][1] if len(cs) == 1 and len(p.conds) == 1 else None
+            outs = {via_cmp(p): p.ret for p in rows}
+            okm = outs.get("Equal") == ("const", True) and any(k not in (None, "Equal") and v == ("const", False) for k, v in outs.items()) and None not in outs
         R.check(okm, f"regex-{meth}-by-pattern", m, f"{meth} is applied to the pattern strings themselves", f"HashableRegex::{meth} is not computed from the full pattern strings")
     R.floor(4)
 
